@@ -92,6 +92,8 @@ pub fn ops_full() -> Vec<Op> {
     v.push(op("proof(subject)", |e| e.proof_contains_target(&e.subject())));
     v.push(op("proof(first-assertion)", |e| { let a = e.assertions(); a.first().and_then(|x| e.proof_contains_target(x)) }));
     v.push(op("sign(ed25519)=wrap+add_signature", |e| Some(e.sign(&ed_key()))));
+    // signature metadata given the same assertion twice: the metadata node inside the 'signed' object must still be canonical
+    v.push(op("add_signature_opt(ed25519, metadata with a repeated assertion)", |e| Some(e.add_signature_opt(&ed_key(), None, Some(SignatureMetadata::new().with_assertion(known_values::NOTE, "m").with_assertion("purpose", "p").with_assertion(known_values::NOTE, "m"))))));
     v.push(op("sskr_split(1-of-1)[0]", |e| { let spec = bc_components::SSKRSpec::new(1, vec![bc_components::SSKRGroupSpec::new(1, 1).ok()?]).ok()?; let mut rng = bc_rand::SeededRandomNumberGenerator::new([1, 2, 3, 4]); e.sskr_split_using(&spec, &bind::key0(), &mut rng).ok()?.into_iter().flatten().next() }));
     v.push(op("add_attachment", |e| Some(e.add_attachment("pl", "v", Some("c")))));
     v
@@ -175,7 +177,14 @@ pub fn rich_roots() -> Vec<(String, Envelope)> {
     let mut c = Envelope::new("wide24");
     for i in 0..22 { c = c.add_assertion(format!("p{i:03}"), i) }
     for (_, x) in p.items.iter().take(2) { c = c.add_assertion_envelope(x.clone()).unwrap() }
-    vec![("rich-9-assertions".into(), a), ("wrapped-with-5-assertions".into(), b), ("wide-24-assertions".into(), c)]
+    // value-dependent corners as a root: known values of 2^28 / 2^32 / 2^64-1, NaN, null, a negative integer below i64::MIN, an empty string, a leaf
+    // that embeds an envelope, a leaf that holds a tagged known value
+    let d = Envelope::new(KnownValue::new(1 << 32))
+        .add_assertion(KnownValue::new(1 << 28), f64::NAN)
+        .add_assertion(Envelope::null(), KnownValue::new(u64::MAX))
+        .add_assertion("", CBOR::from(dcbor::CBORCase::Negative(u64::MAX)))
+        .add_assertion(CBOR::from(Envelope::new("emb").add_assertion("ep", "eo")), KnownValue::new(4).to_cbor());
+    vec![("rich-9-assertions".into(), a), ("wrapped-with-5-assertions".into(), b), ("wide-24-assertions".into(), c), ("value-corners".into(), d)]
 }
 pub fn roots_from(models: &[crate::refmodel::tree::M]) -> Vec<(String, Envelope)> { let mut v: Vec<(String, Envelope)> = models.iter().map(|m| (m.show(), bind::build_route(m, if m.encode().is_some() && contains_elided(m) { bind::Route::Decode } else { bind::Route::Envelopes(0) }))).collect(); v.extend(rich_roots()); v }
 fn contains_elided(m: &crate::refmodel::tree::M) -> bool { use crate::refmodel::tree::M; match m { M::Obscured(..) => true, M::Wrapped(e) => contains_elided(e), M::Assertion(p, o) => contains_elided(p) || contains_elided(o), M::Node(s, a) => contains_elided(s) || a.iter().any(contains_elided), _ => false } }
